@@ -197,6 +197,26 @@ pub fn frame(rng: &mut Rng, ac: &mut Ac, kind: Kind, valid: bool) -> Vec<u8> {
     }
 }
 
+/// A frame of a format outside the nine supported ones, with the given DF (AA-like field = the aircraft address).
+pub fn other_df_frame(rng: &mut Rng, ac: &Ac, df: u64) -> Vec<u8> {
+    let mut f = raw_frame(df, df >= 16, ((rng.next() as u128) << 64) | rng.next() as u128, 0);
+    set_bits(&mut f, 9, 32, ac.icao as u64);
+    seal(&mut f, 0);
+    f
+}
+
+/// `n` newline-terminated lines of one frame kind from the given aircraft, concatenated (a big read).
+pub fn blob_of(rng: &mut Rng, acs: &mut [Ac], n: usize, kind: Kind) -> Vec<u8> {
+    let mut b = Vec::with_capacity(n * 30);
+    let m = acs.len();
+    for i in 0..n {
+        let f = frame(rng, &mut acs[i % m], kind, true);
+        b.extend(to_hex(&f).into_bytes());
+        b.push(b'\n');
+    }
+    b
+}
+
 pub fn me_of(rng: &mut Rng, ac: &mut Ac, kind: Kind, valid: bool) -> u64 {
     let nz = |rng: &mut Rng, bits: u32| -> u64 { let v = rng.bits(bits); if v == 0 { 1 } else { v } };
     let vr = |rng: &mut Rng| -> u64 { if valid { rng.range(2, 511) as u64 } else { let r = rng.bits(9); *rng.pick(&[0u64, 1, 2, 511, r]) } };
@@ -412,6 +432,22 @@ pub fn clock_steps_back(rng: &mut Rng, lines: &mut [(i64, Vec<u8>, String)], p_r
         lines[i].0 = -back;
         if !lines[i].2.contains("clock-back") { lines[i].2 = format!("{}:clock-back", lines[i].2); }
     }
+}
+
+/// The decoder has been up for a long time when the traffic of the run begins: with probability `p_run` the
+/// first line arrives hours, weeks or months after start-up (just past 2^31 / 2^32 ms among the choices).
+pub fn long_uptime(rng: &mut Rng, lines: &mut [(i64, Vec<u8>, String)], p_run: f64) {
+    if lines.is_empty() || !rng.chance(p_run) { return; }
+    let day = 86_400_000_000i64;
+    lines[0].0 = match rng.below(6) {
+        0 => rng.range(3_600_000_000, day),
+        1 => day + rng.range(0, 2_000_000),
+        2 => 2_147_483_648_000 + rng.range(0, 5_000_000),
+        3 => 4_294_967_296_000 + rng.range(0, 5_000_000),
+        4 => rng.range(100, 400) * day,
+        _ => rng.range(1, 60) * day,
+    };
+    lines[0].2 = format!("{}:long-uptime", lines[0].2);
 }
 
 // ------------------------------------------------------------------- chunking
